@@ -6,7 +6,7 @@ PID = "C18"
 THEOREMS = ["outlet_own_label", "label_first_outlet", "streamorder_seeded", "area_seeded", "sto_outlet_condition", "streamorder_outlets_masked", "area_outlet_condition", "area_own_bound", "area_own_bound_order_sort", "idxs_seq_level", "area_own_bound_idxs_seq", "area_own_bound_needs_level_order", "pfaf_digits", "pfaf_closure", "pfaf_main_stem_odd", "pfaf_tributary_even", "pfaf_refines", "gen_subbasins_area_eq", "gen_subbasins_streamorder_eq", "gen_subbasins_pfafstetter_eq"]
 RULE = ("loop-free closed graphs on n<=5 cells (n<=6 thorough), random forests to 60 cells and random D8 rasters through "
         "basins.subbasins_streamorder / subbasins_area / subbasins_pfafstetter and the FlwdirRaster methods: stream-order "
-        "thresholds (absolute and relative), area thresholds 1/3/8, Pfafstetter depths 1..3, upstream-area fields with and "
+        "thresholds (absolute and relative; with no mask and with random, all-false and all-true masks), area thresholds 1/3/8, Pfafstetter depths 1..3, upstream-area fields with and "
         "without ties; every output is also checked against the closure statement, the area bound, the order-change rule "
         "and the Pfafstetter digit / refinement / odd-along-main-stem rules; non-trivial = more than one sub-basin")
 ASSUMPTIONS = ["the Pfafstetter theorems (closure, digits, refinement, odd digits up the main stem) assume upstream areas that are positive "
